@@ -56,10 +56,13 @@ check('C19',
       'get_partition_spec for ranks 0..3, every stacking axis incl. negative, two '
       'nested stacked axes, with numpy.stack as the oracle for where the axis '
       'lands; logical_to_mesh_axes against a reference and the invariant that no '
-      'mesh axis serves two dimensions.',
-      'Real lift.vmap/scan / nnx.vmap driving these calls is outside (JAX '
-      'tracing); the call protocol (add after mapping, remove before) is read '
-      'from lift.py.', XH, 'DESIGN.md §4 C19')
+      'mesh axis serves two dimensions; the real flax.core.lift.vmap / lift.scan '
+      'driving remove_axis / add_axis for plain / In / Out collection axes (init and '
+      'apply): names aligned with the slices the body sees and with the stacked '
+      'results.',
+      'In the lift obligation jax.vmap / axes_scan.scan are numpy slice-call-stack '
+      'reference loops; nnx.vmap / nnx.scan driving nnx.spmd is outside.', XH,
+      'DESIGN.md §4 C19, §9.5')
 
 check('C01',
       'Bounded symbolic check: flax.core.apply/init and Module.apply on scope '
@@ -146,14 +149,17 @@ check('C11',
       'stubbed.', XH, 'DESIGN.md §4 C11')
 check('C12',
       'Symbolic-tensor proofs: Dense, DenseGeneral, Einsum, Embed(+attend), '
-      'LayerNorm, RMSNorm, BatchNorm (train/inference, running stats), Dropout, '
-      'avg/max/min pool, Conv 1-D (SAME/VALID/CIRCULAR/REFLECT/CAUSAL/explicit, '
-      'stride, kernel/input dilation, groups) equal an independent reference for '
+      'LayerNorm, RMSNorm, BatchNorm (train/inference, running stats), GroupNorm '
+      '(incl. explicit reduction_axes), InstanceNorm, variance >= 0 under a '
+      'round-off model of the means, Dropout, avg/max/min pool (explicit pads, 0..3 '
+      'batch dims), Conv 1-D (SAME/VALID/CIRCULAR/REFLECT/CAUSAL/explicit, stride, '
+      'kernel/input dilation, groups), ConvTranspose 1-D (SAME/VALID/explicit vs a '
+      'scatter sum; CIRCULAR periodicity and transpose-of-Conv) equal an independent reference for '
       'every value of every element/parameter/index at each instantiated '
       'configuration; NNX layer == Linen layer on shared parameters.',
       'Floats treated as reals; rsqrt uninterpreted with its defining axiom; '
-      'configurations beyond the grid, ConvTranspose/ConvLocal/GroupNorm/'
-      'InstanceNorm/LoRA/fp8 NOT covered; shim validated per run against real jax.',
+      'configurations beyond the grid, ConvLocal/LoRA/fp8 NOT covered; shim '
+      'validated per run against real jax.',
       ENGC, 'DESIGN.md §4 C12')
 check('C13',
       'SLICES of the property (symbolic-tensor proofs): attention masks as Boolean '
@@ -208,17 +214,28 @@ check('C20',
       'count 1..16/64 enumerated); prefetch_to_device for symbolic source length / '
       'buffer size / failing position; PrefetchIterator under every producer/'
       'consumer schedule of <=10 (thorough 14) choices; _invert_perm; shard/'
-      'unreplicate.',
+      'unreplicate; scan_in_dim == nested loops in the given axis order for every '
+      'tuple of distinct axes of a rank-3 input (lax.scan as its documented loop).',
       'np/jax rebound to stand-ins in flax.jax_utils; PrefetchIterator threads are a '
       'coroutine model generated from the AST (pre-emption at synchronisation '
-      'events), counterexample schedules replayed on real threads; scan_in_dim, '
-      'replicate, onehot NOT covered.',
+      'events), counterexample schedules replayed on real threads; replicate, '
+      'onehot NOT covered.',
       XH, 'DESIGN.md §4 C20')
 
-NA['C06'] = ('semantics implemented by jax.vmap / axes_scan jaxpr tracing / '
-             'jax.random.split: no flax-side computation a solver can execute; '
-             'stubbing them would stub the oracle (axis-name bookkeeping is decided '
-             'under C19)')
+check('C06',
+      'Bounded symbolic check of the real flax.core.lift.vmap / lift.scan and the '
+      'linen nn.vmap / nn.scan wrappers: bodies that read and update parameter, '
+      'statistics, carried, broadcast and shared (None-axis) collections holding '
+      'SYMBOLIC ints, every axis assignment from {0, 1, -1}, argument in/out axes, '
+      'split / un-split rng streams, reverse, explicit length, 3 indices; compared '
+      'with per-index calls / an explicit Python loop written on the slices of each '
+      'collection (final carry, stacked outputs, every returned collection).',
+      'jax.vmap and flax.core.axes_scan.scan are replaced by their documented '
+      'semantics on small arrays (slice along in-axes, call once per index, stack '
+      'along out-axes) and random.split by a token algebra, so axes_scan.scan\'s own '
+      'jaxpr machinery (transpose_to/from_front, broadcast pass, constancy check), '
+      'unroll factors, remat_scan and key bits are NOT covered.',
+      XHS, 'DESIGN.md §4 C06, §9.5')
 NA['C07'] = ('equality with jax.vjp/jvp/grad numerics: both sides are JAX autodiff '
              'over XLA floats, nothing to encode for an SMT solver')
 
